@@ -206,7 +206,11 @@ impl SimState {
             }
         }
         let data = Rc::new(out.data.clone());
-        for np in &out.next_peers {
+        // the interpreter returns the next peers in hash-set order: sort them, so that a history is a
+        // function of the seed alone
+        let mut next_sorted = out.next_peers.clone();
+        next_sorted.sort_by_key(|p| w.peer_index(p).unwrap_or(usize::MAX));
+        for np in &next_sorted {
             match w.peer_index(np) {
                 Some(to) => {
                     let m = Msg { to, from: peer, data: data.clone() };
